@@ -43,8 +43,24 @@ package stdlib
 //@   pure
 //@ functype rare/pkg/expressions/stdlib.typedStageParser[float64]
 //@   pure
+// tv / tok name what a typed stage yields for a context (it is a deterministic function of it);
+// eqv / eqok what a checked integer operation yields for two operands
+//@ smt
+//@ (declare-fun tv (Int Int) Int)
+//@ (declare-fun tok (Int Int) Bool)
+//@ (declare-fun eqv (Int Int Int) Int)
+//@ (declare-fun eqok (Int Int Int) Bool)
+//@ (define-fun-rec foldi ((e Int) (a (Array Int Int)) (o Int) (c Int) (n Int)) Int
+//@   (ite (<= n 1) (tv (select a o) c) (eqv e (foldi e a o c (- n 1)) (tv (select a (+ o (- n 1))) c))))
+//@ end
 //@ functype rare/pkg/expressions/stdlib.typedStage[int]
+//@   params (this, ctx)
 //@   pure
+//@   ensures result0 == tv(this, ctx) && result1 == tok(this, ctx)
+//@ functype func(int, int) (int, bool)
+//@   params (this, a, b)
+//@   pure
+//@   ensures result0 == eqv(this, a, b) && result1 == eqok(this, a, b)
 //@ functype rare/pkg/expressions/stdlib.typedStage[float64]
 //@   pure
 
@@ -360,3 +376,13 @@ package stdlib
 //@   loop 1 invariant rangeindex + 2 <= len(*args) && len(*args) >= 1
 //@   loop 1 invariant sb_content(addrof(sb)) == join_n(arr(*args), off(*args), context, str_of_rune(*delim), rangeindex + 2)
 //@   loop 1 invariant ref(rangeslice()) == ref(*args) && off(rangeslice()) == off(*args) + 1 && len(rangeslice()) == len(*args) - 1
+
+// ---- C11: the integer arithmetic helpers are a left fold over ALL their arguments ----
+// {sumi a b c ...}: ((a op b) op c) ...; the first argument that is not an integer yields
+// <BAD-TYPE>, a rejected operation (division by zero) <VALUE>
+//@ func arithmaticHelperiChecked$1$1
+//@   ensures [bad-first] !tok((*typedArgs)[0], context) ==> result == "<BAD-TYPE>"
+//@   ensures [fold] (forall j in [0, len(*args)) :: tok((*typedArgs)[j], context)) && (forall k in [1, len(*args)) :: eqok(*equation, foldi(*equation, arr(*typedArgs), off(*typedArgs), context, k), tv((*typedArgs)[k], context))) ==> result == itoa(foldi(*equation, arr(*typedArgs), off(*typedArgs), context, len(*args)))
+//@   assert at "return ErrorValue" : !eqok(*equation, foldi(*equation, arr(*typedArgs), off(*typedArgs), context, i), tv((*typedArgs)[i], context))
+//@   loop 1 invariant 1 <= i && i <= len(*args) && final == foldi(*equation, arr(*typedArgs), off(*typedArgs), context, i)
+//@   loop 1 invariant (forall j in [0, i) :: tok((*typedArgs)[j], context)) && (forall k in [1, i) :: eqok(*equation, foldi(*equation, arr(*typedArgs), off(*typedArgs), context, k), tv((*typedArgs)[k], context)))
